@@ -98,6 +98,13 @@ impl<L: KVVStore> KVVStore for CloudKVVStore<L> {
     fn put_with_version(&self, key: &str, version: u64, value: Vec<u8>) -> Result<(), Error> {
         let mut commit_log_opt = self.commit_log.lock().unwrap();
         let commit_log = commit_log_opt.as_mut().expect("not in transaction");
+        if let Some((staged, _)) = commit_log.get(key) {
+            if version < *staged {
+                error!("version mismatch for {}: {} < staged {}", key, version, staged);
+                // version cannot go backwards inside a transaction either
+                return Err(Error::VersionMismatch);
+            }
+        }
         let existing_version = self.local.get_version(key)?;
         if let Some(v) = existing_version {
             if version < v {
